@@ -1234,7 +1234,7 @@ def gen_mat():
         unpack = [ast.unparse(n) for n in ast.walk(fn) if isinstance(n, ast.Assign) and 'indmax' in ast.unparse(n)]
         if sorted(unpack) != sorted(['indmax = np.argmax(l)', 'q0, q1, q2, q3 = U[:, indmax]']):
             raise Refuse('quaternion', 'eigenvector selection changed: ' + repr(unpack))
-        if ast.unparse(assigned(fn, 'l') if False else [n for n in ast.walk(fn) if isinstance(n, ast.Assign) and 'linalg' in ast.unparse(n)][0]) != 'l, U = np.linalg.eig(F)':
+        if ast.unparse(assigned(fn, 'l') if False else [n for n in ast.walk(fn) if isinstance(n, ast.Assign) and 'linalg' in ast.unparse(n)][0]) != 'l, U = np.linalg.eigh(F)':
             raise Refuse('quaternion', 'diagonalisation call changed')
         et = EntryTranslator('quaternion U', {'q0', 'q1', 'q2', 'q3'}, set())
         U = element_assignments(fn, 'U', 3, 3, after_line=zline)
